@@ -47,6 +47,7 @@ def config_strategy(batching="mixed"):
             "acks": draw(st.sampled_from([1, 1, -1, 0])), "batch": batch, "every_n": n, "every_b": b, "every_t": t,
             "codec": draw(st.sampled_from([0, 0, 1])), "max_attempts": draw(st.integers(1, 4)), "retry_interval": draw(st.sampled_from([0.05, 0.25])),
             "hashed": draw(st.sampled_from([False, False, True])), "md_order": draw(st.sampled_from(_cl.MD_ORDERS)),
+            "client_id": draw(st.sampled_from(_cl.CLIENT_IDS)),
         }
 
     return cfg()
@@ -1039,6 +1040,8 @@ class PRODEngine(Engine):
         for s in self.sends:
             if s.watch is not None and s.watch.state == "pending":
                 self.note("C01.exactly-once", "C01.never-fired", "send #%d never fired, even after Producer.stop() and quiescence" % s.no)
+        if cl.field_errors:
+            self.note("C04.fields", "C04.fields/header/client-id", cl.field_errors[0])
         if cl.grammar_errors:
             g = cl.grammar_errors[0]
             kind = "magic" if "magic" in g["error"] else "crc" if "CRC" in g["error"] else "other"
